@@ -103,6 +103,11 @@ class Session(Thread):
 
     def _post_connect(self, timeout=60):
         "Greeting stuff"
+        if timeout is None:
+            # "no timeout given" (the default of SSHSession.connect) is not
+            # "wait for ever": a server that never sends its <hello> must not
+            # block connect() indefinitely
+            timeout = 60
         init_event = Event()
         error = [None] # so that err_cb can bind error[0]. just how it is.
         # callbacks
